@@ -27,14 +27,16 @@ type drv struct {
 	w   *hnet.Wallet
 	tag string
 
-	step     int
-	sent     map[common.Hash]*types.Transaction // submitted to the pool, not yet seen in a block
-	inFlight map[string]int                     // Qi outpoint -> step at which it was handed to the pool
-	refused  map[string]int
-	lastErr  map[string]string
-	included map[string]int // tx kinds seen in delivered blocks
-	orders   [3]int
-	blocks   int
+	step         int
+	sent         map[common.Hash]*types.Transaction // submitted to the pool, not yet seen in a block
+	inFlight     map[string]int                     // Qi outpoint -> step at which it was handed to the pool
+	refused      map[string]int
+	lastErr      map[string]string
+	included     map[string]int // tx kinds seen in delivered blocks
+	orders       [3]int
+	lastOrder    int // order of the last delivered block
+	extraMutated int // mutated blocks beyond the fixed schedule
+	blocks       int
 }
 
 func newDrv(m *mon.M, tag string) (*drv, error) {
@@ -261,6 +263,7 @@ func (d *drv) qiSpend(ins []hnet.Utxo) (*types.Transaction, error) {
 // noteBlock records what a delivered zone block contained.
 func (d *drv) noteBlock(b *types.WorkObject, order int) {
 	d.blocks++
+	d.lastOrder = order
 	if order >= 0 && order < 3 {
 		d.orders[order]++
 	}
